@@ -131,11 +131,47 @@ static void huge_stride_probe(Case& c) {
 	munmap(mp, total);
 }
 
+// Empty messages: an empty view's message is (buffer, count, datatype) with nothing to transfer, but it is still handed to MPI (a rank that owns no rows takes part in the
+// exchange all the same), so its datatype must be alive and committed, every call must succeed, pack 0 bytes and unpack / receive nothing.
+static void empty_message_probe(Case& c) {
+	Rng& g = c.rng; int const kind = int(g.below(4)); static char const* KN[] = {"1-D-empty-slice", "0xN-row-selection", "1-D-empty-slice-of-strided", "0xN-of-transposed"}; std::string const K = std::string("C18:empty:") + KN[kind] + ":";
+	L const r = g.in(2, 5), q = g.in(2, 5), k = g.below(r); describe(std::string("empty-message probe: ") + KN[kind] + " of " + std::to_string(r) + "x" + std::to_string(q) + " at " + std::to_string(k)); sig_mix("empty-message"); sig_mix(std::uint64_t(kind)); count(std::string("empty-message-probe:") + KN[kind]);
+	multi::array<T, 2> A({r, q}); { L z = 0; for(auto& e : A.elements()) e = T(z++); } std::vector<T> const snap(A.data_elements(), A.data_elements() + r * q); std::size_t const live0 = tl().created.size();
+	MPI_Comm_set_errhandler(MPI_COMM_SELF, MPI_ERRORS_RETURN);
+	auto run = [&](auto&& v) {
+		if(v.num_elements() != 0) { count("empty-message-probe:not-empty(skipped)"); return; }
+		op("empty:message(elements)"); mpi::message<> msg(v.elements());
+		std::vector<char> pk(64, char(0x5A)); int pos = 0; op("empty:MPI_Pack"); int rc = MPI_Pack(msg.buffer(), msg.count(), msg.datatype(), pk.data(), int(pk.size()), &pos, MPI_COMM_SELF);
+		if(rc != MPI_SUCCESS) violation(K + "pack:rejected", "MPI_Pack refuses the message of an empty view (error class " + std::to_string(rc) + ")");
+		if(pos != 0) violation(K + "pack:size", "packing the message of an empty view yields " + std::to_string(pos) + " bytes");
+		for(char ch : pk) if(ch != char(0x5A)) { violation(K + "pack:wrote", "packing the message of an empty view wrote into the pack buffer"); break; }
+		int p2 = 0; op("empty:MPI_Unpack"); rc = MPI_Unpack(pk.data(), 0, &p2, msg.buffer(), msg.count(), msg.datatype(), MPI_COMM_SELF);
+		if(rc != MPI_SUCCESS) violation(K + "unpack:rejected", "MPI_Unpack refuses the message of an empty view (error class " + std::to_string(rc) + ")");
+		op("empty:MPI_Sendrecv(self)"); mpi::message<> dmsg(v.elements()); MPI_Status stt;
+		rc = MPI_Sendrecv(msg.buffer(), msg.count(), msg.datatype(), 0, 9, dmsg.buffer(), dmsg.count(), dmsg.datatype(), 0, 9, MPI_COMM_SELF, &stt);
+		if(rc != MPI_SUCCESS) violation(K + "sendrecv:rejected", "MPI_Sendrecv refuses the message of an empty view (error class " + std::to_string(rc) + ")");
+		else { int got = -1; MPI_Get_count(&stt, mpi::datatype<T>, &got); if(got != 0) violation(K + "sendrecv:count", "a self send/receive of an empty view's message transferred " + std::to_string(got) + " elements"); }
+		for(L i = 0; i < r * q; ++i) if(!(A.data_elements()[i] == snap[std::size_t(i)])) { violation(K + "modified-elements", "unpacking / receiving an empty message modified element " + std::to_string(i) + " of the array the empty view belongs to"); break; }
+		count("messages", 2); count("empty_messages_exchanged");
+	};
+	switch(kind) {
+	case 0: run(A[k].sliced(k % q, k % q)); break;
+	case 1: run(A({k, k}, {0, q})); break;
+	case 2: run(A.transposed()[k % q].sliced(k, k)); break;
+	default: run(A.transposed()({k % q, k % q}, {0, r})); break;
+	}
+	MPI_Comm_set_errhandler(MPI_COMM_SELF, MPI_ERRORS_ARE_FATAL);
+	for(auto const& pr : tl().problems) violation(K + "datatype:" + (pr.find("uncommitted") != std::string::npos ? "used-uncommitted" : "lifecycle"), pr, false); tl().problems.clear();
+	if(tl().created.size() != live0) violation(K + "datatype:leaked", "derived datatype(s) created for an empty message were never freed");
+	nontrivial(true);
+}
+
 int main(int argc, char** argv) {
 	MPI_Init(&argc, &argv);
 	int rc = main_loop(argc, argv, [&](Case& c) {
 		static bool init = false; if(!init) { init = true; auto& a = st().args; for(std::size_t i = 0; i + 1 < a.size(); ++i) { if(a[i] == "--maxext") cfg.max_ext = std::atoi(a[i + 1].c_str()); if(a[i] == "--maxops") cfg.max_ops = std::atoi(a[i + 1].c_str()); } }
 		if(c.k % 50 == 7) { huge_stride_probe(c); return; }
+		if(c.k % 20 == 13) { empty_message_probe(c); return; }
 		Prog p = gen_prog(c.rng, cfg);
 		switch(p.root.size()) { case 1: one<1>(c, p); break; case 2: one<2>(c, p); break; case 3: one<3>(c, p); break; default: one<4>(c, p); break; }
 	});
